@@ -17,7 +17,7 @@ import numpy as np
 from hypothesis import strategies as st
 
 from ..core import Facet, Violation
-from ..gen import orbits as go
+from ..gen.draws import D
 from ..oracles import lagrange as lg
 from ..oracles import twobody as tb
 
@@ -50,35 +50,24 @@ FRAMES = ["EME2000", "TOD", "MOD", "TEME", "ITRF", "GCRF"]
 FORMS = ["cartesian", "keplerian", "spherical", "equinoctial", "keplerian_mean"]
 
 
-def f(lo, hi):
-    """Uniform on [lo, hi) (Hypothesis' own floats() is biased towards 0 and 'nice' values)."""
-    return go.uniform(lo, hi)
-
-
-def grid(lo, hi, steps=1000):
-    """Uniform on a grid of steps+1 values in [lo, hi] - one draw (ranges <= 1000 are unbiased)."""
-    return st.integers(0, steps).map(lambda j: lo + (hi - lo) * j / steps)
-
-
 # ------------------------------------------------------------------ tables
 
 
-@st.composite
-def table(draw, level, order=None, nmin=None, nmax=40):
+def table(d, level, order=None, nmin=None, nmax=40):
     """Shape of a table; values are added by the facets."""
     if order is None:
-        order = draw(st.one_of(st.integers(2, 12), st.sampled_from([2, 3, 8, 11, 12])))
+        order = d.int(2, 12) if d.coin() else d.pick(2, 3, 8, 11, 12)
     lo = order if nmin is None else nmin
-    n = draw(st.one_of(st.integers(lo, min(nmax, lo + 2)), st.integers(lo, nmax)))
-    jit = draw(st.lists(grid(-0.3, 0.3, 600), min_size=n, max_size=n)) if draw(st.booleans()) else []
+    n = d.int(lo, min(nmax, lo + 2)) if d.int(0, 2) == 0 else d.int(lo, max(lo, nmax))
+    jit = [d.grid(-0.3, 0.3, 600) for _ in range(n)] if d.coin() else []
     t = dict(level=level, order=order, n=n, jit=jit)
     if level == "interp":
-        t["x0"] = draw(st.one_of(st.sampled_from([0.0, 58000.0, -1.0]), f(-1e5, 1e5)))
-        t["h"] = 10 ** draw(f(-4.0, 3.0))
+        t["x0"] = d.pick(0.0, 58000.0, -1.0) if d.int(0, 3) == 0 else d.u(-1e5, 1e5)
+        t["h"] = 10 ** d.u(-4.0, 3.0)
     else:
-        t["d0"] = draw(go.uniform_int(45000, 62000))
-        t["s0"] = draw(st.one_of(st.sampled_from([0.0, 86399.0, 43200.0]), f(0, 86399.999)))
-        t["h"] = draw(st.one_of(st.sampled_from([60.0, 180.0, 1.0]), f(0.5, 900.0)))
+        t["d0"] = d.int(45000, 62000)
+        t["s0"] = d.pick(0.0, 86399.0, 43200.0) if d.int(0, 3) == 0 else d.u(0, 86399.999)
+        t["h"] = d.pick(60.0, 180.0, 1.0) if d.int(0, 3) == 0 else d.u(0.5, 900.0)
     return t
 
 
@@ -108,17 +97,16 @@ def seconds(t, ds):
     return np.array([(d - t["d0"]) * 86400.0 + (s - t["s0"]) for d, s in ds])
 
 
-@st.composite
-def query(draw, n):
+def query(d, n):
     """Where to evaluate: an interval + fraction, or a node + a tiny offset."""
-    where = draw(st.sampled_from(["first", "last", "second", "penult", "mid", "any", "any"]))
+    where = d.pick("first", "last", "second", "penult", "mid", "any", "any")
     i = {"first": 0, "last": n - 2, "second": 1, "penult": n - 3, "mid": (n - 2) // 2}.get(where)
     if i is None:
-        i = draw(st.integers(0, max(0, n - 2)))
+        i = d.int(0, max(0, n - 2))
     i = min(max(i, 0), max(0, n - 2))
-    if draw(st.integers(0, 5)) == 0:
-        return dict(i=draw(st.integers(0, n - 1)), off=draw(st.sampled_from([-3, -2, -1, 1, 2, 3])))
-    fr = draw(st.one_of(f(0.0, 1.0), f(0.0, 1.0), f(0.0, 1.0), st.sampled_from([0.0, 1.0, 0.5, 1e-9, 1 - 1e-9, 1e-3])))
+    if d.int(0, 5) == 0:
+        return dict(i=d.int(0, n - 1), off=d.pick(-3, -2, -1, 1, 2, 3))
+    fr = d.pick(0.0, 1.0, 0.5, 1e-9, 1 - 1e-9, 1e-3) if d.int(0, 3) == 0 else d.u()
     return dict(i=i, f=fr)
 
 
@@ -256,16 +244,25 @@ def poly_table(t, xs, coeffs, lead=None):
     return p
 
 
-def unit_coeffs(draw, deg, ncomp, scales):
-    rows = draw(st.lists(st.lists(grid(-1.0, 1.0, 998), min_size=ncomp, max_size=ncomp),
-                         min_size=deg + 1, max_size=deg + 1))
-    return [[v * s for v, s in zip(r, scales)] for r in rows]
+def unit_coeffs(d, deg, ncomp, scales):
+    """Seed of a (deg+1, ncomp) array of generic values in [-1, 1] x scales.  Only the seed is drawn
+    (two numbers): drawing up to 72 coefficients one by one made generation 5 x dearer than the
+    check, and the particular values are immaterial as long as they are generic."""
+    return dict(u=d.grid(0.0, 1.0, 999), v=d.grid(0.0, 1.0, 999), rows=deg + 1, scales=scales)
 
 
-def comp_scales(draw, level, ncomp):
+def expand(seed):
+    """Deterministic expansion of a coefficient seed: a golden-ratio Weyl sequence through cos."""
+    n, sc = seed["rows"], seed["scales"]
+    j = np.arange(n * len(sc)).reshape(n, len(sc))
+    phase = seed["u"] + j * 0.6180339887498949 + seed["v"] * (j % 7)
+    return np.cos(2 * math.pi * phase) * np.asarray(sc, float)
+
+
+def comp_scales(d, level, ncomp):
     if level == "ephem":
         return [7e6, 7e6, 7e6, 7e3, 7e3, 7e3]
-    return [10 ** draw(st.integers(-3, 7)) for _ in range(ncomp)]
+    return [10.0 ** d.int(-3, 7) for _ in range(ncomp)]
 
 
 def shape(ys, ncomp):
@@ -294,24 +291,25 @@ def tclasses(t, extra=()):
 
 @st.composite
 def node_case(draw, shard, tier):
-    level = draw(st.sampled_from(["interp", "ephem"]))
-    t = draw(table(level, nmax=24))
-    method = draw(st.sampled_from(["lagrange", "lagrange", "linear"]))
-    ncomp = 6 if level == "ephem" else draw(st.sampled_from([1, 6]))
-    scales = comp_scales(draw, level, ncomp)
-    kind = draw(st.sampled_from(["poly", "random"]))
+    d = D(draw)
+    level = d.pick("interp", "ephem")
+    t = table(d, level, nmax=24)
+    method = d.pick("lagrange", "lagrange", "linear")
+    ncomp = 6 if level == "ephem" else d.pick(1, 6)
+    scales = comp_scales(d, level, ncomp)
+    kind = d.pick("poly", "random")
     if kind == "poly":
-        vals = unit_coeffs(draw, draw(st.integers(0, t["order"] - 1)), ncomp, scales)
+        vals = unit_coeffs(d, d.int(0, t["order"] - 1), ncomp, scales)
     else:
-        vals = unit_coeffs(draw, t["n"] - 1, ncomp, scales)  # one row per node
+        vals = unit_coeffs(d, t["n"] - 1, ncomp, scales)  # one row per node
     return dict(t=t, method=method, ncomp=ncomp, kind=kind, vals=vals)
 
 
 def node_values(case, xs):
     t = case["t"]
     if case["kind"] == "poly":
-        return poly_table(t, xs, case["vals"])(xs)
-    return np.asarray(case["vals"], float)
+        return poly_table(t, xs, expand(case["vals"]))(xs)
+    return expand(case["vals"])
 
 
 def check_node_exact(case):
@@ -332,7 +330,7 @@ def check_node_exact(case):
             raise Violation(
                 f"node-{case['method']}",
                 f"{t['level']} {case['method']} order {k}: value at node {j} of {t['n']} is "
-                f"{got[bad]!r}, the table holds {want[bad]!r} (diff {got[bad] - want[bad]:.3g})",
+                f"{float(got[bad])!r}, the table holds {float(want[bad])!r} (diff {got[bad] - want[bad]:.3g})",
                 node=j, method=case["method"])
     return dict(nt=True, cls=tclasses(t, [case["method"], case["kind"]]), ratio=0.0)
 
@@ -342,17 +340,18 @@ def check_node_exact(case):
 
 @st.composite
 def poly_case(draw, shard, tier):
-    level = draw(st.sampled_from(["interp", "interp", "ephem"]))
-    t = draw(table(level))
-    method = draw(st.sampled_from(["lagrange", "lagrange", "lagrange", "linear"]))
-    ncomp = 6 if level == "ephem" else draw(st.sampled_from([1, 6]))
-    scales = comp_scales(draw, level, ncomp)
+    d = D(draw)
+    level = d.pick("interp", "interp", "ephem")
+    t = table(d, level)
+    method = d.pick("lagrange", "lagrange", "lagrange", "linear")
+    ncomp = 6 if level == "ephem" else d.pick(1, 6)
+    scales = comp_scales(d, level, ncomp)
     if method == "lagrange":
-        deg = draw(st.one_of(st.just(t["order"] - 1), st.integers(0, t["order"] - 1)))
-        vals = unit_coeffs(draw, deg, ncomp, scales)
+        deg = t["order"] - 1 if d.coin() else d.int(0, t["order"] - 1)
+        vals = unit_coeffs(d, deg, ncomp, scales)
     else:
-        vals = unit_coeffs(draw, t["n"] - 1, ncomp, scales)  # arbitrary rows = piecewise-linear data
-    qs = draw(st.lists(query(t["n"]), min_size=4, max_size=8))
+        vals = unit_coeffs(d, t["n"] - 1, ncomp, scales)  # arbitrary rows = piecewise-linear data
+    qs = [query(d, t["n"]) for _ in range(d.int(4, 8))]
     return dict(t=t, method=method, ncomp=ncomp, vals=vals, qs=qs)
 
 
@@ -362,10 +361,10 @@ def check_poly(case):
     k = t["order"]
     method = case["method"]
     if method == "lagrange":
-        p = poly_table(t, xs, case["vals"])
+        p = poly_table(t, xs, expand(case["vals"]))
         ys = p(xs)
     else:
-        ys = np.asarray(case["vals"], float)
+        ys = expand(case["vals"])
     if t["level"] == "interp":
         obj = make_interp(xs, shape(ys, case["ncomp"]), method, k)
     else:
@@ -379,9 +378,9 @@ def check_poly(case):
             continue
         got = np.atleast_1d(evaluate(t, obj, x, dsq))
         if not np.all(np.isfinite(got)):
-            raise Violation("non-finite", f"{got.tolist()} at x={x!r}")
+            raise Violation("non-finite", f"{got.tolist()} at x={float(x)!r}")
         if method == "linear":
-            worst = max(worst, match_interpolant(xs, ys, method, k, x, got, f"x={x!r}"))
+            worst = max(worst, match_interpolant(xs, ys, method, k, x, got, f"x={float(x)!r}"))
         else:
             want = p([x])[0]
             cond = np.max([c for _, _, c in lagrange_candidates(xs, ys, k, x)], axis=0) + np.abs(want)
@@ -392,8 +391,8 @@ def check_poly(case):
                 j = int(np.argmax(np.abs(got - want) / tol))
                 raise Violation(
                     "poly-reproduction",
-                    f"{t['level']} order {k}, n={t['n']}: polynomial of degree {len(case['vals']) - 1} "
-                    f"not reproduced at x={x!r}: got {got[j]!r}, exact {want[j]!r} ({r:.3g} x tol)",
+                    f"{t['level']} order {k}, n={t['n']}: polynomial of degree {case['vals']['rows'] - 1} "
+                    f"not reproduced at x={float(x)!r}: got {float(got[j])!r}, exact {float(want[j])!r} ({r:.3g} x tol)",
                     ratio=r)
         qc.add(qclass(xs, x))
         if qclass(xs, x) in ("q:first", "q:last") or (x not in xs and (k % 2 or t["jit"])):
@@ -406,12 +405,13 @@ def check_poly(case):
 
 @st.composite
 def rem_case(draw, shard, tier):
-    t = draw(table("interp"))
-    ncomp = draw(st.sampled_from([1, 3]))
-    scales = [10 ** draw(st.integers(-2, 6)) for _ in range(ncomp)]
-    low = unit_coeffs(draw, t["order"] - 1, ncomp, scales)
-    lead = [draw(st.sampled_from([-1.0, 1.0])) * draw(f(0.25, 1.0)) * s for s in scales]
-    qs = draw(st.lists(query(t["n"]), min_size=3, max_size=6))
+    d = D(draw)
+    t = table(d, "interp")
+    ncomp = d.pick(1, 3)
+    scales = [10.0 ** d.int(-2, 6) for _ in range(ncomp)]
+    low = unit_coeffs(d, t["order"] - 1, ncomp, scales)
+    lead = [d.pick(-1.0, 1.0) * d.u(0.25, 1.0) * sc for sc in scales]
+    qs = [query(d, t["n"]) for _ in range(d.int(3, 6))]
     return dict(t=t, ncomp=ncomp, low=low, lead=lead, qs=qs)
 
 
@@ -431,13 +431,13 @@ def check_remainder(case):
         i0 = lg.brackets(xs, x)[0]
         half = k * t["h"] / 2
         lead = dict(k=k, c=np.asarray(case["lead"], float), at=float(xs[i0]), half=half)
-        p = poly_table(t, xs, case["low"], lead)
+        p = poly_table(t, xs, expand(case["low"]), lead)
         ys = p(xs)
         obj = make_interp(xs, shape(ys, case["ncomp"]), "lagrange", k)
         got = np.atleast_1d(np.asarray(obj(x), float))
         want = p([x])[0]
         if not np.all(np.isfinite(got)):
-            raise Violation("non-finite", f"{got.tolist()} at x={x!r}")
+            raise Violation("non-finite", f"{got.tolist()} at x={float(x)!r}")
         cands = lagrange_candidates(xs, ys, k, x)
         allowed = max(abs(lg.node_poly(xs[s:s + k], x)) for s, _, _ in cands) / half**k
         cond = np.max([c for _, _, c in cands], axis=0) + np.abs(want)
@@ -465,22 +465,31 @@ def check_remainder(case):
 
 @st.composite
 def acc_case(draw, shard, tier):
-    cls = draw(st.sampled_from(["nominal", "nominal", "loworder", "anyorder", "eccentric", "coarse"]))
-    order = {"nominal": 8, "coarse": draw(st.sampled_from([4, 6, 8, 8, 9]))}.get(cls)
-    if order is None:
-        order = draw(st.integers(2, 5)) if cls == "loworder" else draw(st.integers(2, 12))
-    t = draw(table("ephem", order=order))
-    e = draw(f(0.1, 0.75)) if cls == "eccentric" else draw(st.one_of(f(0.0, 0.1), f(0.0, 0.003)))
-    rp = draw(st.one_of(f(6.6e6, 8.0e6), f(6.6e6, 4.3e7), st.just(42164e3)))
+    d = D(draw)
+    cls = d.pick("nominal", "nominal", "loworder", "anyorder", "eccentric", "coarse")
+    if cls == "nominal":
+        order = 8
+    elif cls == "coarse":
+        order = d.pick(4, 6, 8, 8, 9)
+    else:
+        order = d.int(2, 5) if cls == "loworder" else d.int(2, 12)
+    t = table(d, "ephem", order=order)
+    if cls == "eccentric":
+        e = d.u(0.1, 0.75)
+    else:
+        e = d.u(0.0, 0.1) if d.coin() else d.u(0.0, 0.003)
+    rp = (d.u(6.6e6, 8.0e6), d.u(6.6e6, 4.3e7), 42164e3)[d.int(0, 2)]
     a = rp / (1 - e)
     period = 2 * math.pi * math.sqrt(a**3 / MU)
     local = 2 * math.pi * math.sqrt(rp**3 / (MU * (1 + e)))
-    div = draw(f(30.0, 100.0)) if cls == "coarse" else draw(st.one_of(f(100.0, 400.0), st.just(100.0)))
+    if cls == "coarse":
+        div = d.u(30.0, 100.0)
+    else:
+        div = 100.0 if d.int(0, 3) == 0 else d.u(100.0, 400.0)
     t["h"] = (local if cls == "eccentric" else period) / div
-    el = dict(a=a, e=e, i=draw(f(0.01, math.pi - 0.01)), raan=draw(f(0, 6.28)), argp=draw(f(0, 6.28)),
-              M=draw(f(0, 6.28)))
-    qs = [dict(i=0, f=draw(f(0.05, 0.95))), dict(i=t["n"] - 2, f=draw(f(0.05, 0.95))),
-          dict(i=(t["n"] - 2) // 2, f=draw(f(0.05, 0.95))), draw(query(t["n"]))]
+    el = dict(a=a, e=e, i=d.u(0.01, math.pi - 0.01), raan=d.u(0, 6.28), argp=d.u(0, 6.28), M=d.u(0, 6.28))
+    qs = [dict(i=0, f=d.u(0.05, 0.95)), dict(i=t["n"] - 2, f=d.u(0.05, 0.95)),
+          dict(i=(t["n"] - 2) // 2, f=d.u(0.05, 0.95)), query(d, t["n"])]
     return dict(t=t, el=el, cls=cls, qs=qs)
 
 
@@ -541,23 +550,25 @@ def check_accuracy(case):
 
 @st.composite
 def refusal_case(draw, shard, tier):
-    level = draw(st.sampled_from(["interp", "ephem"]))
-    short = draw(st.integers(0, 3)) == 0
+    d = D(draw)
+    level = d.pick("interp", "ephem")
+    short = d.int(0, 3) == 0
     if short:
-        order = draw(st.integers(2, 12))
-        n = draw(st.integers(1, order - 1))
-        t = draw(table(level, order=order, nmin=n, nmax=n))
+        order = d.int(2, 12)
+        n = d.int(1, order - 1)
+        t = table(d, level, order=order, nmin=n, nmax=n)
         method = "lagrange"
     else:
-        t = draw(table(level))
-        method = draw(st.sampled_from(["lagrange", "linear"]))
+        t = table(d, level)
+        method = d.pick("lagrange", "linear")
     out = []
-    for _ in range(draw(st.integers(2, 5))):
-        side = draw(st.sampled_from(["below", "above"]))
-        amount = draw(st.one_of(st.sampled_from([1, 2, 3]).map(lambda m: dict(units=m)),
-                                f(-3.0, 1.7).map(lambda r: dict(steps=10 ** r))))
-        out.append(dict(side=side, **amount))
-    qs = draw(st.lists(query(max(t["n"], 2)), min_size=2, max_size=5))
+    for _ in range(d.int(2, 5)):
+        side = d.pick("below", "above")
+        if d.coin():
+            out.append(dict(side=side, units=d.pick(1, 2, 3)))
+        else:
+            out.append(dict(side=side, steps=10 ** d.u(-3.0, 1.7)))
+    qs = [query(d, max(t["n"], 2)) for _ in range(d.int(2, 5))]
     return dict(t=t, method=method, short=short, out=out, qs=qs)
 
 
@@ -602,8 +613,8 @@ def check_refusal(case):
             raise RuntimeError("outside query landed inside")
         got, exc = call(x, dsq)
         if exc is None:
-            raise Violation("not-refused", f"{t['level']} {case['method']}: x={x!r} outside "
-                            f"[{xs[0]!r}, {xs[-1]!r}] returned {got.tolist()} instead of ValueError",
+            raise Violation("not-refused", f"{t['level']} {case['method']}: x={float(x)!r} outside "
+                            f"[{float(xs[0])!r}, {float(xs[-1])!r}] returned {got.tolist()} instead of ValueError",
                             side=o["side"])
     inside = [(float(xs[0]), ds[0] if ds else None), (float(xs[-1]), ds[-1] if ds else None)]
     if n >= 2:
@@ -615,13 +626,13 @@ def check_refusal(case):
         got, exc = call(x, dsq)
         if case["short"]:
             if exc is None:
-                raise Violation("short-table-accepted", f"{n} nodes, order {k}: x={x!r} returned "
+                raise Violation("short-table-accepted", f"{n} nodes, order {k}: x={float(x)!r} returned "
                                 f"{got.tolist()} instead of ValueError")
         elif exc is not None:
             raise Violation("inside-refused", f"{t['level']} {case['method']} order {k}, n={n}: "
-                            f"x={x!r} inside [{xs[0]!r}, {xs[-1]!r}] raised ValueError({exc})")
+                            f"x={float(x)!r} inside [{float(xs[0])!r}, {float(xs[-1])!r}] raised ValueError({exc})")
         elif not np.all(np.isfinite(got)):
-            raise Violation("non-finite", f"{got.tolist()} at x={x!r}")
+            raise Violation("non-finite", f"{got.tolist()} at x={float(x)!r}")
     return dict(nt=True, cls=tclasses(t, ["short" if case["short"] else "n>=order", case["method"]]),
                 ratio=0.0)
 
@@ -631,24 +642,25 @@ def check_refusal(case):
 
 @st.composite
 def session_case(draw, shard, tier):
-    order0 = draw(st.sampled_from([None, None, 2, 3, 5, 8, 12]))
-    method0 = draw(st.sampled_from([None, "lagrange", "linear"]))
-    t = draw(table("ephem", order=order0 or 8, nmax=20))
-    vals = unit_coeffs(draw, t["n"] - 1, 6, [7e6, 7e6, 7e6, 7e3, 7e3, 7e3])
-    smooth = draw(st.booleans())
-    perm = draw(st.lists(st.integers(0, 1000), min_size=t["n"], max_size=t["n"])) if draw(st.booleans()) else []
+    d = D(draw)
+    order0 = d.pick(None, None, 2, 3, 5, 8, 12)
+    method0 = d.pick(None, "lagrange", "linear")
+    t = table(d, "ephem", order=order0 or 8, nmax=20)
+    vals = unit_coeffs(d, t["n"] - 1, 6, [7e6, 7e6, 7e6, 7e3, 7e3, 7e3])
+    smooth = d.coin()
+    perm = [d.int(0, 1000) for _ in range(t["n"])] if d.coin() else []
     ops = []
-    for _ in range(draw(st.integers(2, 8))):
-        kind = draw(st.sampled_from(["interp", "interp", "propagate", "order", "method"]))
+    for _ in range(d.int(2, 8)):
+        kind = d.pick("interp", "interp", "propagate", "order", "method")
         if kind == "order":
-            ops.append(dict(op="order", k=draw(st.integers(2, min(12, t["n"] + 1)))))
+            ops.append(dict(op="order", k=d.int(2, min(12, t["n"] + 1))))
         elif kind == "method":
-            ops.append(dict(op="method", m=draw(st.sampled_from(["lagrange", "linear"]))))
+            ops.append(dict(op="method", m=d.pick("lagrange", "linear")))
         else:
-            ops.append(dict(op=kind, q=draw(query(t["n"]))))
-    ops.append(dict(op="interp", q=draw(query(t["n"]))))
+            ops.append(dict(op=kind, q=query(d, t["n"])))
+    ops.append(dict(op="interp", q=query(d, t["n"])))
     return dict(t=t, order0=order0, method0=method0, vals=vals, smooth=smooth, perm=perm,
-                frame=draw(st.sampled_from(FRAMES)), form=draw(st.sampled_from(FORMS)), ops=ops)
+                frame=d.pick(*FRAMES), form=d.pick(*FORMS), ops=ops)
 
 
 def check_session(case):
@@ -657,7 +669,7 @@ def check_session(case):
     t = case["t"]
     xs, ds = abscissae(t)
     n = t["n"]
-    ys = np.asarray(case["vals"], float)
+    ys = expand(case["vals"])
     if case["smooth"]:
         # a smooth table (values vary slowly from node to node) as well as rough ones
         ys = np.cumsum(ys, axis=0) / 4
@@ -734,19 +746,19 @@ FINDINGS = {"C09/linear-node-rounding": linear_node_rounding}
 
 FACETS = [
     Facet("node_exact", node_case, check_node_exact, setup=_setup,
-          rule="every case: all n nodes of the table are queried", quick=(8, 250), thorough=(16, 4000)),
+          rule="every case: all n nodes of the table are queried", quick=(8, 600), thorough=(16, 6000)),
     Facet("poly_reproduction", poly_case, check_poly, setup=_setup,
           rule="a query strictly between nodes in an edge interval, or odd order, or non-uniform nodes",
-          quick=(12, 300), thorough=(24, 5000)),
+          quick=(12, 800), thorough=(24, 8000)),
     Facet("window_remainder", rem_case, check_remainder, setup=_setup,
-          rule="a query strictly between nodes", quick=(8, 300), thorough=(16, 5000)),
+          rule="a query strictly between nodes", quick=(8, 800), thorough=(16, 8000)),
     Facet("accuracy", acc_case, check_accuracy, setup=_setup,
           rule="every case: first, last and middle interval of a Kepler ephemeris + one drawn query",
-          quick=(12, 120), thorough=(24, 1500)),
+          quick=(12, 400), thorough=(24, 4000)),
     Facet("refusal", refusal_case, check_refusal, setup=_setup,
           rule="every case: 2-5 abscissae outside, both ends and 2-5 drawn abscissae inside",
-          quick=(6, 300), thorough=(12, 5000)),
+          quick=(6, 600), thorough=(12, 6000)),
     Facet("session", session_case, check_session, setup=_setup,
           rule="every case: 3-9 operations on one Ephem (queries, order / method changes)",
-          quick=(8, 200), thorough=(16, 3000)),
+          quick=(8, 500), thorough=(16, 5000)),
 ]
